@@ -128,6 +128,7 @@ def step (st : St) (args : List String) : St × String × String :=
       else dup (st, "bad-op")
   | ["gate", id, g] =>
       if (findSub s (decStr id)).isNone then dup (st, "no-such-subscriber")
+      else if g == "step" then dup ({ s := Sub.stepGate s (decStr id) }, "ok")
       else dup ({ s := Sub.setGate s (decStr id) (g == "shut") }, "ok")
   | _ => dup (st, "bad-op")
 
